@@ -50,6 +50,7 @@ def declare(rep):
     rep.rule("R03.1", "one step pushes exactly [right child, left child] of the popped node, in this order")
     rep.rule("R03.4", "one step yields the projection of the popped node iff it holds a value (prefix and value of the same node)")
     rep.rule("R03.5", "empty stack: None, nothing pushed")
+    rep.rule("R03.7", "(shared with C16) no mutator links a slot twice or leaves a freed slot linked")
     rep.rule("R03.6", "constructors start the walker on the right table with the start list [root] / [view node]; clones are derived")
 
 
@@ -206,6 +207,20 @@ def run_config(ctx, rep, cfg, F):
             rep.bad("R03.6", short, "hand-written-clone", "%s is not derived: a hand-written clone of an iterator must be reviewed" % short, config=cfg)
         else:
             rep.ok("R03.6", short, "derived")
+    # ---- R03.7: "exactly once" needs the linked slots to form a tree; the structural mutators must keep it one
+    from . import c16
+    n_tree = 0
+    for where, paths, ret_fresh in c16.entry_programs(ctx, F):
+        for p in paths:
+            if p.result[0] not in ("ret", "cut"):
+                continue
+            n_tree += 1
+            for kind, slot, text in C.SlotGraph(p).problems(ret_fresh):
+                if kind in ("free-linked", "double-link", "double-free"):
+                    rep.bad("R03.7", where, "%s:%s" % (kind, slot), "%s: %s — a walk over the links would then visit a slot twice or visit a "
+                            "recycled slot (inputs: %s)" % (where, text, C.inputs_str(p, 12)), config=cfg)
+    rep.ok("R03.7", "structural mutators", "links stay a tree")
+    rep.floor("mutator paths checked for tree-ness (%s)" % cfg, n_tree, 5000)
     rep.floor("iterator step / constructor paths (%s)" % cfg, n, 90)
 
 
